@@ -13,7 +13,7 @@
      LSkip (blank, comment, fewer than 3 fields, unknown key type, SSHException) or
      LEntry names key.  Entries whose key is None (HostKeys.__setitem__ with an empty
      dict, "don't use this please") are outside the model. *)
-From PV Require Import Bytes.
+From PV Require Import Bytes C41_gen.
 Open Scope Z_scope.
 
 Inductive name := Nm (hashed : bool) (id : Z).
@@ -112,21 +112,8 @@ Fixpoint remove_first (h : name) (l : list name) : list name :=
 Definition prune (known : name -> bool) (names : list name) : list name :=
   fold_left (fun cur h => if known h then remove_first h cur else cur) names names.
 
-Definition load_line (hm : hmap) (st : state) (l : line) : state :=
-  match l with
-  | LSkip => st
-  | LEntry names k =>
-      match prune (fun h => has_entry hm st h k) names with
-      | [] => st
-      | names' => st ++ [(names', k)]
-      end
-  end.
-
-Definition load (hm : hmap) (st : state) (f : list line) : state :=
-  fold_left (load_line hm) f st.
-
-(* ---- the code before the repair (documentation of the defect) -------------- *)
-(* for h in entry.hostnames: if self.check(h, entry.key): entry.hostnames.remove(h)
+(* the loop as it was before the repair:
+     for h in entry.hostnames: if ...: entry.hostnames.remove(h)
    Python's list iterator is an index into the live list. *)
 Fixpoint prune_v0 (fuel : nat) (known : name -> bool) (cur : list name) (i : nat) : list name :=
   match fuel with
@@ -138,6 +125,42 @@ Fixpoint prune_v0 (fuel : nat) (known : name -> bool) (cur : list name) (i : nat
       end
   end.
 
+(* The loader of the working tree.  Which list the loop iterates over and which duplicate test it
+   uses are read from the source by gen/c41.py (Gen/C41_gen.v); on the repaired source both are
+   true, i.e. prune over a copy with _has_entry. *)
+Definition load_line (hm : hmap) (st : state) (l : line) : state :=
+  match l with
+  | LSkip => st
+  | LEntry names k =>
+      let known := if gen_load_uses_has_entry then (fun h => has_entry hm st h k)
+                   else (fun h => check hm st h k) in
+      match (if gen_load_iterates_copy then prune known names
+             else prune_v0 (length names) known names 0%nat) with
+      | [] => st
+      | names' => st ++ [(names', k)]
+      end
+  end.
+
+Definition load (hm : hmap) (st : state) (f : list line) : state :=
+  fold_left (load_line hm) f st.
+
+(* A text line whose third field is not valid base64 (e.g. a truncated key, or a line that
+   starts with an @cert-authority / @revoked marker, which shifts the fields) makes from_line
+   raise InvalidHostKey; that is not an SSHException, so it escapes load: the lines before it
+   have been loaded, the lines after it are never read. *)
+Inductive tline := TLine (l : line) | TBad.
+Fixpoint good_prefix (f : list tline) : list line * bool :=
+  match f with
+  | [] => ([], false)
+  | TBad :: _ => ([], true)
+  | TLine l :: r => let '(p, b) := good_prefix r in (l :: p, b)
+  end.
+Definition invalid_host_key : exn := LibExc 1.
+Definition load_t (hm : hmap) (st : state) (f : list tline) : state * Z :=
+  let '(p, bad) := good_prefix f in
+  (load hm st p, if bad then exn_code invalid_host_key else 0).
+
+(* ---- the code before the repair (documentation of the defect): live list + check() ---- *)
 Definition load_line_v0 (hm : hmap) (st : state) (l : line) : state :=
   match l with
   | LSkip => st
@@ -191,23 +214,58 @@ Definition lists (hm : hmap) (q : name) (e : entry) : Prop :=
     (h = q \/ (is_hashed h = true /\ is_hashed q = false /\ In (name_id q, name_id h) hm)).
 
 (* ---- operation sequences and the canonical observation --------------------- *)
+(* ---- SubDict.__setitem__ / __delitem__ (hostkeys[q][t] = k ; del hostkeys[q][t]) ---------- *)
+(* __setitem__: the first listing entry of that type gets the key (the entry object is shared
+   with the table); otherwise HostKeyEntry([q], k) is appended to the table *)
+Fixpoint sub_replace (hm : hmap) (st : state) (q : name) (t : Z) (k : key) : option state :=
+  match st with
+  | [] => None
+  | e :: r =>
+      if hostname_matches hm q e && (ktype (snd e) =? t) then Some ((fst e, k) :: r)
+      else match sub_replace hm r q t k with
+           | Some r' => Some (e :: r')
+           | None => None
+           end
+  end.
+Definition sub_set (hm : hmap) (st : state) (q : name) (t : Z) (k : key) : result state :=
+  match lookup hm st q with
+  | [] => Raise TypeErr                           (* lookup returned None *)
+  | _ => match sub_replace hm st q t k with
+         | Some st' => Ok st'
+         | None => Ok (st ++ [([q], k)])
+         end
+  end.
+(* __delitem__ removes the entry from the SubDict's private list only: the table is unchanged *)
+Definition sub_del (hm : hmap) (st : state) (q : name) (t : Z) : result state :=
+  match lookup hm st q with
+  | [] => Raise TypeErr
+  | es => match subdict_get es t with
+          | Some _ => Ok st
+          | None => Raise KeyErr
+          end
+  end.
+
 Inductive op :=
   | OAdd (h : name) (t : Z) (k : key)
-  | OLoad (f : list line)
+  | OLoad (f : list tline)
   | ODel (q : name)
   | OClear
-  | OSaveReload.       (* save to a file, load it into a fresh HostKeys, continue with that *)
+  | OSaveReload        (* save to a file, load it into a fresh HostKeys, continue with that *)
+  | OSubSet (q : name) (t : Z) (k : key)
+  | OSubDel (q : name) (t : Z).
+
+Definition step_result (st : state) (r : result state) : state * Z :=
+  match r with Ok st' => (st', 0) | Raise e => (st, exn_code e) end.
 
 Definition step (hm : hmap) (st : state) (o : op) : state * Z :=
   match o with
   | OAdd h t k => (add st h t k, 0)
-  | OLoad f => (load hm st f, 0)
-  | ODel q => match delitem hm st q with
-              | Ok st' => (st', 0)
-              | Raise e => (st, exn_code e)
-              end
+  | OLoad f => let '(st1, c) := load_t hm st f in (fst (load_t hm st1 f), c)   (* the harness loads every file twice *)
+  | ODel q => step_result st (delitem hm st q)
   | OClear => ([], 0)
   | OSaveReload => (load hm [] (save st), 0)
+  | OSubSet q t k => step_result st (sub_set hm st q t k)
+  | OSubDel q t => step_result st (sub_del hm st q t)
   end.
 
 Definition enc_name (n : name) : Z := 2 * name_id n + (if is_hashed n then 1 else 0).
